@@ -177,6 +177,15 @@ class MultiAuth(AuthProvider):
         return [('authorization', 'Bearer t'), ('x-tenant', 'acme'), ('x-empty', '')]
 
 
+class RotatingAuth(AuthProvider):
+    """A provider of short-lived tokens: every call of provide() hands out the next one."""
+    issued = []
+
+    def provide(self):
+        RotatingAuth.issued.append('token-%d' % (len(RotatingAuth.issued) + 1))
+        return [('authorization', 'Bearer ' + RotatingAuth.issued[-1])]
+
+
 class RaisingAuth(AuthProvider):
     def provide(self):
         raise RuntimeError('no credentials')
